@@ -3,8 +3,9 @@
 (A) TLC on PageCache.tla (one SIEVE shard of capacity 2 with keys k1..k3, optionally a second shard, budget counter):
     the REPAIRED design is model-checked exhaustively at both granularities - whole calls of 2 and of 3 logical threads,
     and the real windows (get_or_insert = fast;slow, clear = len;shard*;release) for 2 threads - against PinnedStays,
-    PinAccounting, DataIsLastWrite, WithinCapacity, BudgetMatches, BudgetZeroWhenEmpty; three witness runs of the design
-    AS THE CODE HAS IT must still find the recorded counterexamples; the as-is design satisfies the "unless" invariants
+    PinAccounting, DataIsLastWrite, WithinCapacity, BudgetMatches, BudgetZeroWhenEmpty (and the two proposed budget repairs
+    alone against the budget properties); three witness runs of the design AS THE CODE HAS IT must still find the recorded
+    counterexamples; the as-is design satisfies the "unless" invariants
     that attribute every violation to a named deviation (checked while generating).
 (B) every transition TLC explores of the as-is design is a call sequence / schedule with expected results and an expected
     final observation; the harness executes it on a real PageCache::with_budget (call level: one OS thread, logical threads
@@ -29,13 +30,13 @@ MANIFEST = dict(cat=LEVEL, ref="DESIGN.md 3.6, 6 (C35)",
          "proposed/C35-cache-hooks.diff (otherwise fine_grained_replayed is false and only the free-running race exercises the "
          "windows); pin counts are observed only through behaviour; x86-64 memory model")
 
-MC_CFGS = ["MC_PageCache_call2", "MC_PageCache_call3", "MC_PageCache_fine2"]
+MC_CFGS = ["MC_PageCache_call2", "MC_PageCache_call3", "MC_PageCache_fine2", "MC_PageCache_fine2_budgetfix"]
 WITNESS = {"MC_PageCache_witness_pinned": "PinnedStays", "MC_PageCache_witness_initleak": "BudgetMatches",
            "MC_PageCache_witness_clearlen": "BudgetZeroWhenEmpty"}
 GEN_CFGS = ["Gen_PageCache_call2", "Gen_PageCache_call2_b1", "Gen_PageCache_call3", "Gen_PageCache_fine2"]
 # thorough tier: deeper bounds (text substitutions on the committed configs)
 THOROUGH = {"MC_PageCache_call2": ("MaxCalls = 3", "MaxCalls = 4"), "MC_PageCache_call3": ("MaxCalls = 2", "MaxCalls = 3"),
-            "MC_PageCache_fine2": ("MaxCalls = 2", "MaxCalls = 3"),
+            "MC_PageCache_fine2": ("MaxCalls = 2", "MaxCalls = 3"), "MC_PageCache_fine2_budgetfix": ("MaxCalls = 2", "MaxCalls = 3"),
             "Gen_PageCache_call2": ("MaxCalls = 3", "MaxCalls = 4"), "Gen_PageCache_fine2": ("MaxCalls = 2", "MaxCalls = 3")}
 # classes the property names and the model must generate (non-vacuity); fine: only meaningful when generated at all
 NEED = ["get/hit", "get/miss", "goi/hit", "goi/inserted", "goi/err_full", "goi/err_budget", "goi/err_init", "write/ok", "write/panic",
@@ -93,8 +94,7 @@ def run_models(thorough):
     sc = vlib.scratch()
     with concurrent.futures.ThreadPoolExecutor(max_workers=5) as ex:
         for n in MC_CFGS + list(WITNESS) + GEN_CFGS:
-            jobs[n] = ex.submit(tlc_to_file, cfg_for(n, thorough), os.path.join(sc, n + ".out"), 3, 1700 if thorough else 900,
-                                n == "MC_PageCache_call2")
+            jobs[n] = ex.submit(tlc_to_file, cfg_for(n, thorough), os.path.join(sc, n + ".out"), 3, 1750 if thorough else 1500)
     res = {}
     for n, j in jobs.items():
         r = j.result()
@@ -139,7 +139,10 @@ CONFORMANCE = ("result", "state", "path", "blocked")
 def classify(chk, res_path):
     summary, counts, sig_counts = None, {}, {}
     examples = {}
-    for r in vlib.read_ndjson(res_path):
+    for line in open(res_path):
+        if not line.strip():
+            continue
+        r = json.loads(line)
         if r["kind"] == "summary":
             summary = r
             continue
@@ -267,7 +270,6 @@ def run(chk):
         "last_step_classes": classes, "problem_kinds_at_last_step": counts, "signatures": sig_counts,
         "conformance_divergences": len(chk.stale),
         "witnesses_in_model": {n: inv for n, inv in WITNESS.items()},
-        "actions_covered": {a: t for a, (d, t) in models["MC_PageCache_call2"]["coverage"].items()},
         "stress": stress, "exhaustive": True,
         "samples": [{"signature": s, "schedule": e["schedule"], "problem": e["problem"]} for s, e in sorted(examples.items())][:6]
                    or [{"note": "no property-level problem observed"}],
@@ -285,7 +287,8 @@ def replay(chk, path):
         return 2
     inp, outp = os.path.join(vlib.scratch(), "one.ndjson"), os.path.join(vlib.scratch(), "one_res.ndjson")
     vlib.write_ndjson(inp, [{"cfg": rep["cfg"], "hist": rep["hist"], "obs": rep["obs"], "removed": []}])
-    vlib.run_vh(["cache-replay", "--in", inp, "--out", outp, "--jobs", 1, "--verbose", 1])
+    st = os.environ.get("VERIF_SELFTEST", "")
+    vlib.run_vh(["cache-replay", "--in", inp, "--out", outp, "--jobs", 1, "--verbose", 1] + (["--selftest", {"1": "unpin"}.get(st, st)] if st else []))
     rc = 0
     print("signature: %s" % d.get("signature"))
     for i, s in enumerate(rep["hist"]):
